@@ -310,6 +310,13 @@ HandleAck(m, t, ns, id, args) ==
                        !.cbs = Append(@, [tag |-> c.out[k], args |-> args])]
         ELSE m      \* unknown callback: ignored
 
+AckBare(m, t) ==
+    LET sid == SidFromT(m.s, t, "/")
+        c   == Get(m.s.cb, sid, [next |-> 1, out |-> <<>>])
+    IN  IF Has(m.s.cb, sid) /\ Has(c.out, "1")
+        THEN Raise([m EXCEPT !.s.cb = Put(@, sid, [c EXCEPT !.out = Del(@, "1")])], "X")
+        ELSE m
+
 (* server.py _handle_eio_message (638-666): the binary reassembly buffer   *)
 RxBinHeader(m, t, ty, ns, id, ev, n, bad) ==
     [m EXCEPT !.s.binbuf = Put(@, t, [ty |-> ty, ns |-> ns, id |-> id, ev |-> ev,
@@ -494,7 +501,12 @@ Step(m, a) ==
       \* a malformed / hostile frame: `class` is what the reference reading of the
       \* frame says ("contained": undecodable or ill-typed, the message callback
       \* raises inside engine.io; "ignored": decodable but nobody is responsible)
-      [] a.act = "RxRaw"        -> IF a.class = "contained" THEN Raise(m, "X") ELSE m
+      \* "ackbare": an ACK with an id and no payload at all ("31") - if that id is outstanding
+      \* for the sender the callback is taken off the table and then cannot be applied to the
+      \* missing arguments (manager.py 80-92: callback(*None)): it is never invoked
+      [] a.act = "RxRaw"        -> IF a.class = "contained" THEN Raise(m, "X")
+                                   ELSE IF a.class = "ackbare" THEN AckBare(m, a.t)
+                                   ELSE m
       [] a.act = "Emit"         -> Emit(m, a)
       [] a.act = "Call"         -> CallS(m, a)
       [] a.act = "EnterRoom"    -> EnterRoom(m, a.sid, a.room, a.ns)
